@@ -870,7 +870,9 @@ class PytatoKeyBuilder(LoopyKeyBuilder):
     def update_for_ndarray(self, key_hash: Any, key: Any) -> None:
         import numpy as np
         assert isinstance(key, np.ndarray)
-        self.rec(key_hash, key.data.tobytes())
+        # the bytes alone do not identify the data: int64 zeros and float64
+        # zeros, or a (2, 3) and a (3, 2) array, share them
+        self.rec(key_hash, (key.dtype, key.shape, key.data.tobytes()))
 
     def update_for_TaggableCLArray(self, key_hash: Any, key: Any) -> None:
         from arraycontext.impl.pyopencl.taggable_cl_array import (  # pylint: disable=import-error
